@@ -34,7 +34,14 @@ def explore_case(path_fn, engine_opts=None, setup=None, max_cex=1, want_samples=
                     if z3.is_false(m.eval(c, model_completion=True)):
                         failing.append(l)
                 verdict = 'sat'
-                cex = out['cex'](m) if out.get('cex') else {}
+                if out.get('refine'):
+                    # counterexample to induction: ask for a pre-state reachable through the public API
+                    cex = out['refine'](eng, neg, m)
+                    if cex is None:
+                        verdict = 'unreached'
+                        cex = {'note': 'pre-state not reachable within the synthesis bound', 'labels': failing}
+                else:
+                    cex = out['cex'](m) if out.get('cex') else {}
                 cex['failing_checks'] = failing
                 cex['outcome'] = out.get('outcome')
         sample = out.get('sample')
@@ -47,16 +54,22 @@ def explore_case(path_fn, engine_opts=None, setup=None, max_cex=1, want_samples=
         res.detail = 'unwinding assertion: ' + str(e)
         res.stats = dict(eng.stats)
         return res
+    unreached = []
     for outcome, verdict, cex, sample in paths:
         res.outcomes[outcome] = res.outcomes.get(outcome, 0) + 1
         if verdict == 'sat' and len(res.cex) < max_cex:
             res.cex.append(cex)
+        if verdict == 'unreached':
+            unreached.append(cex)
         if sample is not None and len(res.samples) < want_samples:
             res.samples.append({'outcome': outcome, 'path': sample})
-    res.status = 'cex' if res.cex else 'ok'
+    res.status = 'cex' if res.cex else ('inconclusive' if unreached else 'ok')
     res.stats = dict(eng.stats)
     res.lines = sorted(f'{f.split("/")[-1]}:{l}' for f, l in eng.lines)
     res.detail = f'{len(paths)} paths, outcomes {res.outcomes}'
+    if unreached and not res.cex:
+        res.detail = ('counterexample to induction whose pre-state could not be reached through the public API '
+                      f'within the synthesis bound (invariant too weak or deep violation): {unreached[0]}')
     return res
 
 
